@@ -170,7 +170,7 @@ theorem findList?_kid {p : Nat} {v : Value} {l : List HTree} {s : HTree} {r : Li
   rw [findList?_inside rs _ nd e (by rw [handles_node]; exact List.mem_cons_of_mem _ hin), find?_node,
     if_neg (fun (e' : p = s.handle) => u1 (e' ▸ hin))]
   obtain ⟨m1, _⟩ := nodup_mid u2
-  exact findList?_mid (m1 _ (handle_mem_handles s))
+  exact findList?_mid (m1 _ (fs_handle_mem_handles s))
 
 namespace Forest
 
@@ -213,7 +213,7 @@ theorem map_replaceBelow {f : Forest} {h : Nat} {c : Ctx} (F : HTree → List HT
   · intro k hdis
     have hp : c.parent ∉ handles k := hdis _ (by rw [handles_node]; exact List.mem_cons_self)
     have hh : h ∉ handles k := hdis _ (by rw [handles_node]; exact List.mem_cons_of_mem _ ht.mem_handlesList)
-    rw [replaceBelow_of_not_mem k hh, editAt_of_not_mem k hp]
+    rw [fs_replaceBelow_of_not_mem k hh, editAt_of_not_mem k hp]
 
 theorem map_mapAt {f : Forest} {h : Nat} {c : Ctx} (G : HTree → HTree)
     (nd : f.allHandles.Nodup) (e : f.ctx? h = some c) :
@@ -226,7 +226,7 @@ theorem map_mapAt {f : Forest} {h : Nat} {c : Ctx} (G : HTree → HTree)
   · intro k hdis
     have hp : c.parent ∉ handles k := hdis _ (by rw [handles_node]; exact List.mem_cons_self)
     have hh : h ∉ handles k := hdis _ (by rw [handles_node]; exact List.mem_cons_of_mem _ ht.mem_handlesList)
-    rw [mapAt_of_not_mem k hh, editAt_of_not_mem k hp]
+    rw [fs_mapAt_of_not_mem k hh, editAt_of_not_mem k hp]
 
 /-- `cut` of a node that has a parent. -/
 theorem cut_of_ctx {f : Forest} {n : Nat} {c : Ctx} (nd : f.allHandles.Nodup) (e : f.ctx? n = some c) :
